@@ -201,9 +201,6 @@ func (fi *File) Type() NodeType {
 }
 
 func (fi *File) Mode() (os.FileMode, error) {
-	fi.nodeLock.RLock()
-	defer fi.nodeLock.RUnlock()
-
 	nd, err := fi.GetNode()
 	if err != nil {
 		return 0, err
@@ -242,9 +239,6 @@ func (fi *File) SetMode(mode os.FileMode) error {
 
 // ModTime returns the files' last modification time.
 func (fi *File) ModTime() (time.Time, error) {
-	fi.nodeLock.RLock()
-	defer fi.nodeLock.RUnlock()
-
 	nd, err := fi.GetNode()
 	if err != nil {
 		return time.Time{}, err
